@@ -104,9 +104,18 @@ func runMeasure(e *simcore.Env, tp *simcore.Tape) {
 		var hist []mstep
 		now := time.Date(2000, 1, 1, 0, 0, 0, 0, time.UTC).UnixMilli()
 		plain := tp.Bool(2, 3)
+		// plain values with holes: nulls in group-by tags, rarely in aggregated fields (the row path refuses to aggregate
+		// a null field: recorded finding, nothing is compared there)
+		nullRate, nullFieldRate := 0, 0
+		if plain {
+			nullRate = []int{0, 3, 8}[tp.Choose(3)]
+			if nullRate > 0 && tp.Bool(1, 4) {
+				nullFieldRate = nullRate
+			}
+		}
 		for i, k := 0, tp.Range(2, 8); i < k; i++ {
 			if tp.Weighted(3, 2) == 0 {
-				rows := m.GenBatch(tp, wl.BatchOpts{BaseMs: now + int64(i)*1000, SpanMs: int64([]int{1000, 3600_000, 2 * 86400_000}[tp.Choose(3)]), MaxRows: 120, MaxSeries: 5, Plain: plain, SmallField: plain, NullOK: !plain, Collide: tp.Bool(1, 4)}, i)
+				rows := m.GenBatch(tp, wl.BatchOpts{BaseMs: now + int64(i)*1000, SpanMs: int64([]int{1000, 3600_000, 2 * 86400_000}[tp.Choose(3)]), MaxRows: 120, MaxSeries: 5, Plain: plain, SmallField: plain, NullOK: !plain, NullTagRate: nullRate, NullFieldRate: nullFieldRate, Collide: tp.Bool(1, 4)}, i)
 				m.Ack(rows)
 				hist = append(hist, mstep{rows: rows})
 			} else {
@@ -148,7 +157,7 @@ func runMeasure(e *simcore.Env, tp *simcore.Tape) {
 			req := s.QueryRequest(a, b, s.GenProjection(tp), uint32([]int{1000000, 1, 5, 50}[tp.Choose(4)]))
 			desc := fmt.Sprintf("range[%d,%d] limit=%d", a, b, req.Limit)
 			isOrdered := false
-			if plain && tp.Bool(1, 2) {
+			if plain && nullRate == 0 && tp.Bool(1, 2) {
 				if c := wl.GenCriteria(tp, s.Tags, rowTags, tp.Range(0, 2), func(t wl.TagSpec) bool { return !t.Entity }); c != nil {
 					req.Criteria = c.Proto()
 					desc += " where " + c.String()
@@ -261,6 +270,28 @@ func runMeasure(e *simcore.Env, tp *simcore.Tape) {
 			if reqs[i].Criteria != nil {
 				shape += "+criteria"
 			}
+			if reqs[i].Agg != nil {
+				// does the aggregate range over a null field value?
+				nullIn := false
+				lo, hi := reqs[i].GetTimeRange().GetBegin().AsTime().UnixMilli(), reqs[i].GetTimeRange().GetEnd().AsTime().UnixMilli()
+				for _, r := range m.Rows {
+					if r.Ts >= lo && r.Ts <= hi && r.Fields[reqs[i].Agg.FieldName].GetValue() == nil {
+						nullIn = true
+					}
+					if _, isNull := r.Fields[reqs[i].Agg.FieldName].GetValue().(*modelv1.FieldValue_Null); isNull && r.Ts >= lo && r.Ts <= hi {
+						nullIn = true
+					}
+				}
+				if nullIn {
+					e.Probe("reach.aggregate_over_null_field")
+					shape += ":null-field"
+					// the row path either fails the query or logs the error when the plan is closed and returns the groups
+					// it had finished before it met the null (none for a scalar aggregate)
+					if ans[0][i].err == "" && (ans[1][i].err != "" || len(ans[1][i].rows) < len(ans[0][i].rows)) && e.Known("vectorized-equals-row", "measure:row-path-refuses-null-field-in-aggregate") {
+						continue
+					}
+				}
+			}
 			e.Fail("vectorized-equals-row", "measure:"+kind+":"+shape, "request %d (%s):\n vectorized (%d rows): %s\n row path   (%d rows): %s", i, descs[i], len(ans[0][i].rows), clip(x), len(ans[1][i].rows), clip(y))
 			return
 		}
@@ -365,18 +396,21 @@ func runStream(e *simcore.Env, tp *simcore.Tape) {
 		var reqs []*streamv1.QueryRequest
 		var descs []string
 		var ordered []bool
+		var crits []*wl.Crit
 		for i, k := 0, tp.Range(4, 12); i < k; i++ {
 			a, b := lo, hi
 			if tp.Bool(1, 3) {
 				x, y := m.Rows[tp.Choose(len(m.Rows))].Ts, m.Rows[tp.Choose(len(m.Rows))].Ts
 				a, b = min(x, y), max(x, y)
 			}
+			crits = append(crits, nil)
 			req := s.QueryRequest(a, b, s.GenProjection(tp), uint32([]int{1000000, 1, 5, 50}[tp.Choose(4)]))
 			desc := fmt.Sprintf("range[%d,%d] limit=%d", a, b, req.Limit)
 			if plain && tp.Bool(1, 2) {
 				if c := wl.GenCriteria(tp, s.Tags, rowTags, tp.Range(0, 2), func(t wl.TagSpec) bool { return !t.Entity }); c != nil {
 					req.Criteria = c.Proto()
 					desc += " where " + c.String()
+					crits[len(crits)-1] = c
 				}
 			}
 			isOrdered := false
@@ -476,7 +510,19 @@ func runStream(e *simcore.Env, tp *simcore.Tape) {
 			if reqs[i].Limit < 1000000 {
 				shape += ":capped" // a limit that the scan cap (limit+offset) can make binding before the filter
 			}
-			e.Fail("vectorized-equals-row", "stream:"+kind+":"+shape, "request %d (%s):\n vectorized (%d rows): %s\n row path   (%d rows): %s", i, descs[i], len(ans[0][i].rows), clip(x), len(ans[1][i].rows), clip(y))
+			// diagnostic only: what the reference model selects (per value of the order-by tag)
+			refN, refKeys := 0, map[string]int{}
+			for _, r := range m.Rows {
+				if r.Ts < reqs[i].GetTimeRange().GetBegin().AsTime().UnixMilli() || r.Ts > reqs[i].GetTimeRange().GetEnd().AsTime().UnixMilli() || !crits[i].Eval(r.Tags) {
+					continue
+				}
+				refN++
+				if rn := reqs[i].GetOrderBy().GetIndexRuleName(); rn != "" {
+					refKeys[wl.CanonTag(r.Tags[strings.TrimPrefix(rn, "sidx_")])]++
+				}
+			}
+			e.Note("reference model: %d rows selected; per order-by key: %v", refN, refKeys)
+			e.Fail("vectorized-equals-row", "stream:"+kind+":"+shape, "request %d (%s):\n vectorized (%d rows): %s\n row path   (%d rows): %s\n vectorized keys: %s\n row path keys:   %s", i, descs[i], len(ans[0][i].rows), clip(x), len(ans[1][i].rows), clip(y), clip(strings.Join(ans[0][i].keys, ",")), clip(strings.Join(ans[1][i].keys, ",")))
 			return
 		}
 		e.Nontrivial()
